@@ -353,17 +353,22 @@ def oracle(c):
     # the copy is independent: editing it in place (through the lists its properties hand out) changes the copy only
     fresh = build(d['A'])
     pts = ca.ctrlptsw if ca.rational else ca.ctrlpts
-    pts[len(pts) // 2][0] = pts[len(pts) // 2][0] + 3
+    mid_ = len(pts) // 2
+    want_ = pts[mid_][0] + 3
+    pts[mid_][0] = want_
     if not (a == fresh) or not (fresh == a):
         return "editing a deep copy in place (a control point coordinate) changed its source"
-    if (ca == a) or (a == ca):
+    took = (ca.ctrlptsw if ca.rational else ca.ctrlpts)[mid_][0] == want_      # a getter handing out copies: nothing was edited
+    if took and ((ca == a) or (a == ca)):
         return "a deep copy whose control point was then moved by 3 still equals its source"
     cb = copy.deepcopy(a)
     kv = cb.knotvector if cb.pdimension == 1 else cb.knotvector[-1]
-    kv[-1] = kv[-1] + 3
+    wantk_ = kv[-1] + 3
+    kv[-1] = wantk_
     if not (a == fresh) or not (fresh == a):
         return "editing a deep copy in place (a knot) changed its source"
-    if (cb == a) or (a == cb):
+    took = (cb.knotvector if cb.pdimension == 1 else cb.knotvector[-1])[-1] == wantk_
+    if took and ((cb == a) or (a == cb)):
         return "a deep copy whose last knot was then moved by 3 still equals its source"
     for got, (want, why), txt in ((ab, expected(sa, sb), 'a == b'), (ba, expected(sb, sa), 'b == a')):
         if want is not None and got != want:
